@@ -28,12 +28,16 @@ func buildSpec(a *analysed, randText string) gorun.Spec {
 	for k, v := range a.Case.Main.Imports {
 		s.Imports[k] = v
 	}
+	// standard library packages whose types can be enums through constants of the analysed package
+	if _, taken := s.Imports["time"]; !taken {
+		s.Imports["time"] = "time"
+	}
 	decl := map[string]*irdump.Decl{}
 	for _, d := range a.Env.Decls {
 		decl[d.Q] = d
 	}
 	importName := map[string]string{} // pkg path -> import name
-	for n, p := range a.Case.Main.Imports {
+	for n, p := range s.Imports {
 		importName[p] = n
 	}
 	expr := func(d *irdump.Decl) string {
@@ -69,16 +73,21 @@ func buildSpec(a *analysed, randText string) gorun.Spec {
 		if e == "" {
 			continue
 		}
-		local := d.PkgPath == a.Env.PkgPath
 		var cs []string
 		for _, m := range d.Members {
 			if m.Name == "_" {
 				continue
 			}
-			if local {
+			// a constant lives in the package that declares it, which need not be the type's
+			// (const DefaultTimeout time.Duration in the analysed package)
+			mp := m.Pkg
+			if mp == "" {
+				mp = d.PkgPath
+			}
+			if mp == a.Env.PkgPath {
 				cs = append(cs, m.Name)
-			} else if m.Exported {
-				cs = append(cs, importName[d.PkgPath]+"."+m.Name)
+			} else if m.Exported && importName[mp] != "" {
+				cs = append(cs, importName[mp]+"."+m.Name)
 			}
 		}
 		if len(cs) > 0 {
@@ -346,8 +355,38 @@ func missingWrapper(a *analysed, w map[string][]string) string {
 			isUnion[d.Q] = true
 		}
 	}
+	// what gounions visits: the source types and what they reach without crossing an anonymous
+	// slice / array / map (the recorded finding is about types only reachable behind one)
+	byQ := map[string]*irdump.Decl{}
 	for _, d := range a.Env.Decls {
-		if d.PkgPath != a.Env.PkgPath || has[d.Q] || strings.HasSuffix(d.Q, "#2") {
+		byQ[d.Q] = d
+	}
+	visited := map[string]bool{}
+	var visit func(q string)
+	visit = func(q string) {
+		d := byQ[q]
+		if d == nil || visited[q] {
+			return
+		}
+		visited[q] = true
+		// gounions.generate: a struct recurses into the types of its (non ignored) fields when they
+		// are named types, unions or structs; anonymous containers, the elements of named containers
+		// and the members of unions are not followed
+		if d.Kind == "struct" {
+			for _, f := range d.Fields {
+				if f.T != nil && f.T.K == "ref" && reflect.StructTag(f.Tag).Get("gomacro") != "ignore" {
+					visit(f.T.Q)
+				}
+			}
+		}
+	}
+	for _, t := range a.Env.Source {
+		if t.K == "ref" {
+			visit(t.Q)
+		}
+	}
+	for _, d := range a.Env.Decls {
+		if d.PkgPath != a.Env.PkgPath || has[d.Q] || strings.HasSuffix(d.Q, "#2") || visited[d.Q] {
 			continue
 		}
 		switch d.Kind {
